@@ -10,12 +10,14 @@ it belongs to (every task of the trace is followed individually, i.e. for each t
 linearising bracket are compared with the model's. Reply: `ok` or `reject <why>`.
 
 ```
-lim <n>                         start of a trace, configured limit
+lim <n> <0|1>                   start of a trace: configured limit; is a finished token left in the channel?
 new <tid> <cls> <var> <nil>     task attributes (tid = 0,1,2,… in order of first appearance)
 t <tid> nilret | submit <m|l> | hinc <cnt> | tmoenq <cnt> | tmowait | begin | moddec <out> | dec <cnt>
         | tok <0|1> | ret <code> | doneagain
 s space <cnt> <lim> | full <cnt> <lim> | shut | grant <tid> | count <cnt> | other | woken | tick
 shutdown
+scn … / h …                     scenario description and harness observations: not model events, answered `ok`
+setmax <n>                      pure glue: the limit `SetMaxConcurrentMicroTasks n` configures
 end <cnt> <mods>                all calls returned and the scheduler settled: observed counters
 ```
 -/
@@ -166,10 +168,11 @@ def finalPc (d : DSt) : Bool := (d.pc = 9 ∨ d.pc = 10 ∨ d.pc = 11) ∧ (d.re
 
 def handle (x : Drv) (line : String) : Except String Drv := do
   match PB.Drv.words line with
-  | ["lim", n] =>
-    match n.toNat? with
-    | some n => pure { Drv.init with g := PB.MicroTasks.init n, started := true }
-    | none => throw "bad-op"
+  | ["lim", n, f] =>
+    match n.toNat?, f with
+    | some n, "0" => pure { Drv.init with g := PB.MicroTasks.init n, started := true }
+    | some n, "1" => pure { Drv.init with g := PB.MicroTasks.initTok n, started := true }
+    | _, _ => throw "bad-op"
   | "new" :: [t, cls, var, nilm] =>
     match t.toNat?, cls.toNat?, var.toNat?, nilm.toNat? with
     | some t, some cls, some var, some nilm =>
@@ -184,6 +187,8 @@ def handle (x : Drv) (line : String) : Except String Drv := do
     | none => throw "bad-op"
   | "s" :: ev => if x.started then schedEv x ev else throw "no lim line"
   | ["shutdown"] => if x.started then app x .shutdown none else throw "no lim line"
+  | "scn" :: _ => pure x      -- the scenario description, for the record
+  | "h" :: _ => pure x        -- harness-side observations, read by the monitor only
   | ["end", c, m] =>
     match c.toInt?, m.toInt? with
     | some c, some m =>
@@ -198,6 +203,12 @@ def handle (x : Drv) (line : String) : Except String Drv := do
   | _ => throw "bad-op"
 
 def stepLine (x : Drv) (line : String) : Drv × String :=
+  match PB.Drv.words line with
+  | ["setmax", n] =>
+    match n.toInt? with
+    | some n => (x, toString (PB.Gen.MicroTasks.setMax n))
+    | none => (x, "bad-op")
+  | _ =>
   match handle x line with
   | .ok x' => (x', "ok")
   | .error e => (x, if e = "bad-op" then "bad-op" else "reject " ++ e)
